@@ -67,3 +67,30 @@ package nodeutil
 //@   callsite WriteString#7: arg0 === s[start:] && i == len(s)
 //@   callsite WriteByte#10: arg0 == '"'
 //@   check [pendingFlushed] jstrs >= old(jstrs) + (start < len(s) ? 1 : 0)
+
+// ---- C15: per-format rendering of one value (the closure writeValue hands to val.Reduce) -------------------------
+// what is pinned down: which writer call renders each format — quoted and escaped (writeString) for strings, binary,
+// bits, identityrefs and enum labels; the literal [null] for an empty leaf; never a raw, unquoted copy of a string
+//@ func (wtr *JSONWtr) writeString(s string) error
+//@   trusted
+//@   assigns jquoted
+//@   ensures jquoted == old(jquoted) + 1
+//@ ghost var jquoted int
+//@ extern bufio.(*Writer).WriteString(s string) (int, error)
+//@   assigns jraw
+//@   ensures jraw == old(jraw) + 1
+//@ ghost var jraw int
+// the format of a value is a function of its dynamic type (abstraction of the one-line Format methods of package val)
+//@ pure fmtRest(a val.Value) val.Format
+//@ pure fmtOfV(a val.Value) val.Format = dyn(a) == val.NotEmptyType ? val.FmtEmpty : dyn(a) == val.String ? val.FmtString : dyn(a) == val.Binary ? val.FmtBinary : \
+//@      dyn(a) == val.Bits ? val.FmtBits : dyn(a) == val.IdentRef ? val.FmtIdentityRef : dyn(a) == val.Enum ? val.FmtEnum : fmtRest(a)
+//@ interface val.Value.Format() val.Format
+//@   assigns nothing
+//@   ensures result == fmtOfV(self)
+//@ func (wtr *JSONWtr) writeValue$1(i int, item val.Value, ierr interface{}) interface{}
+//@   mode int
+//@   property C15
+//@   maypanic
+//@   requires wtr != nil && item != nil && fmtOfV(item) != val.FmtAny
+//@   callsite WriteString: dyn(item) == val.NotEmptyType ==> arg0 == "[null]"
+//@   callsite WriteString: dyn(item) != val.String && dyn(item) != val.Binary && dyn(item) != val.Bits && dyn(item) != val.IdentRef
